@@ -308,7 +308,8 @@ fn call_level(cfgs: &[Arc<ExchCfg>], rep: &mut Report) {
                                 if ended != (consumed == coding.len()) {
                                     return Some(("C07:call:read:ended-mismatch".into(), format!("is_ended() = {} but {} of {} coding bytes were consumed", ended, consumed, coding.len())));
                                 }
-                                if !ended {
+                                let last_data_end = ranges.iter().map(|(d, _, l)| d + l + 2).max().unwrap_or(0);
+                                if !ended && consumed <= last_data_end {
                                     let want_boundary = consumed == 0 || ranges.iter().any(|(d, _, l)| d + l + 2 == consumed);
                                     if b.is_on_chunk_boundary() != want_boundary {
                                         return Some(("C07:call:read:chunk-boundary-query".into(), format!("{} coding bytes consumed but is_on_chunk_boundary() = {}", consumed, !want_boundary)));
